@@ -70,21 +70,16 @@ theorem chain_pulled_le_emitted {w : Wiring} {n : Nat} {s : Net} (hw : WellForme
   (Inv.reachable (wf_pos hw) h).pulled_le
 
 /-- REST BOUND as stated in the property: from ANY reachable state, whatever the other threads do while the
-consumer does not pull (any schedule `σ` without the consumer, of any length, in particular one that ends in
-quiescence), the source advances at most `B w` more times -/
+consumer does not pull (any schedule `σ` without the consumer, of any length — in particular one that ends in a quiescent
+state, `Net.quiescent`: no thread but the consumer enabled), the source advances at most `B w` more times.
+Hypotheses: `WellFormed` excludes the empty chain and capacity 0; `pool = false` excludes worker-pool wirings (for those:
+`chain_rest_bound_pool_paused`).  That a quiescent state IS reached is not proved in this (flag-level) model, see
+`dag_rest_reached` for the guard-level nets. -/
 theorem chain_rest_bound_paused {w : Wiring} {n : Nat} {s : Net} (hw : WellFormed w = true) (hp : w.pool = false)
     (h : Reachable w n s) (σ : List Tid) (hσ : ∀ t ∈ σ, t ≠ s.main) : (Backpressure.run s σ).emitted ≤ s.emitted + B w := by
   have h1 := chain_rest_bound hw hp (reachable_run h σ)
   have h2 := chain_pulled_le_emitted hw h
   rw [run_pulled σ hσ] at h1
-  omega
-
-/-- the same at quiescence (`Net.quiescent`: no thread but the consumer is enabled — every other thread has ended or
-is blocked on a full mailbox, at the fetch gate or on a message that is not there) -/
-theorem chain_rest_bound_quiescent {w : Wiring} {n : Nat} {s : Net} (hw : WellFormed w = true) (hp : w.pool = false)
-    (h : Reachable w n s) (σ : List Tid) (hσ : ∀ t ∈ σ, t ≠ s.main) (_hq : (Backpressure.run s σ).quiescent = true) :
-    (Backpressure.run s σ).emitted - s.emitted ≤ B w := by
-  have := chain_rest_bound_paused hw hp h σ hσ
   omega
 
 /-- … and with a worker pool: at most `B w + 1` further advances of the source -/
